@@ -104,42 +104,128 @@ theorem runSpec_append (pb : PB) (a b : List Nat) :
 #print axioms runSpec_append
 end Framing
 
+
 namespace Framing
 
-/-- In the payload state, the spec consumes `min remaining len` bytes in bulk. -/
-theorem feedSpec_payload (pb : PB) (inp : List Nat) (hst : pb.st = .payload) (hr : 0 < pb.remaining) :
+/-- payload state, fewer bytes than needed: the spec just accumulates them -/
+theorem feedSpec_payload_partial (n : Nat) (pb : PB) (inp : List Nat)
+    (hst : pb.st = .payload) (hn : n ≤ inp.length) (hr : n < pb.remaining) :
     feedSpec pb inp =
-      (let n := min pb.remaining inp.length
-       if n = 0 then (pb, none, inp)
-       else if pb.remaining - n = 0 then
-         (PB.reset, some (.complete (pb.header.headD 0) (pb.buf ++ inp.take n)), inp.drop n)
-       else ({ pb with buf := pb.buf ++ inp.take n, remaining := pb.remaining - n }, none, inp.drop n)) := by
-  induction inp generalizing pb with
-  | nil => simp [feedSpec]
-  | cons b rest ih =>
-    simp only [feedSpec, stepByte, hst]
-    by_cases h1 : pb.remaining = 1
-    · simp [h1]
-    · have hlt : 1 < pb.remaining := by omega
-      simp only [h1, if_false]
-      rw [ih _ rfl (by simp; omega)]
-      simp only [List.length_cons]
-      have hn : min pb.remaining (rest.length + 1) ≠ 0 := by omega
-      simp only [hn, if_false]
-      by_cases hz : min (pb.remaining - 1) rest.length = 0
-      · have : rest = [] := by
-          cases rest with
-          | nil => rfl
-          | cons _ _ => simp at hz; omega
-        subst this
-        simp
-        omega
-      · simp only [hz, if_false]
-        have e1 : min pb.remaining (rest.length + 1) = min (pb.remaining - 1) rest.length + 1 := by omega
-        have e2 : pb.remaining - 1 - min (pb.remaining - 1) rest.length
-                = pb.remaining - min pb.remaining (rest.length + 1) := by omega
-        rw [e1, ← e2]
-        simp only [List.take_succ_cons, List.drop_succ_cons, List.append_assoc, List.singleton_append]
-        split <;> simp_all
+      feedSpec { pb with buf := pb.buf ++ inp.take n, remaining := pb.remaining - n } (inp.drop n) := by
+  induction n generalizing pb inp with
+  | zero => simp
+  | succ k ih =>
+    cases inp with
+    | nil => simp at hn
+    | cons b rest =>
+      have h1 : pb.remaining ≠ 1 := by omega
+      rw [feedSpec]
+      simp only [stepByte, hst, h1, if_false]
+      rw [ih _ rest rfl (by simpa using hn) (by simp; omega)]
+      simp only [List.take_succ_cons, List.drop_succ_cons, List.append_assoc, List.singleton_append]
+      congr 2
+      omega
 
+/-- payload state, enough bytes: the spec completes the frame after exactly `remaining` bytes -/
+theorem feedSpec_payload_complete (pb : PB) (inp : List Nat)
+    (hst : pb.st = .payload) (hr : 0 < pb.remaining) (hn : pb.remaining ≤ inp.length) :
+    feedSpec pb inp =
+      (PB.reset, some (.complete (pb.header.headD 0) (pb.buf ++ inp.take pb.remaining)),
+       inp.drop pb.remaining) := by
+  have hk : pb.remaining - 1 < pb.remaining := by omega
+  rw [feedSpec_payload_partial (pb.remaining - 1) pb inp hst (by omega) hk]
+  have hlen : (inp.drop (pb.remaining - 1)).length ≥ 1 := by simp; omega
+  cases hd : inp.drop (pb.remaining - 1) with
+  | nil => simp [hd] at hlen
+  | cons b rest =>
+    rw [feedSpec]
+    have e1 : pb.remaining - (pb.remaining - 1) = 1 := by omega
+    simp only [stepByte, hst, e1, if_true]
+    have e2 : inp.take pb.remaining = inp.take (pb.remaining - 1) ++ [b] := by
+      have : pb.remaining = (pb.remaining - 1) + 1 := by omega
+      rw [this, List.take_succ]
+      simp only [Nat.add_sub_cancel]
+      congr 1
+      have := congrArg List.head? hd
+      simp only [List.head?_drop, List.head?_cons] at this
+      simp [this]
+    have e3 : inp.drop pb.remaining = rest := by
+      have e : inp.drop pb.remaining = (inp.drop (pb.remaining - 1)).drop 1 := by
+        rw [List.drop_drop]; congr 1; omega
+      rw [e, hd]; rfl
+    rw [e2, e3, List.append_assoc]
+
+#print axioms feedSpec_payload_complete
+end Framing
+
+namespace Framing
+
+theorem feedLoop_eq_spec (fuel : Nat) (pb : PB) (inp : List Nat)
+    (hinv : pb.st = .payload → 0 < pb.remaining) (hf : inp.length < fuel) :
+    feedLoop fuel pb inp = feedSpec pb inp := by
+  induction fuel generalizing pb inp with
+  | zero => omega
+  | succ fuel ih =>
+    unfold feedLoop
+    cases hst : pb.st with
+    | fixedHeader =>
+      simp only
+      cases inp with
+      | nil => simp [feedSpec]
+      | cons b rest =>
+        simp only
+        rw [ih _ rest (by simp) (by simpa using hf)]
+        simp [feedSpec, stepByte, hst]
+    | remLen =>
+      simp only
+      cases inp with
+      | nil => simp [feedSpec]
+      | cons b rest =>
+        simp only
+        have hr : rest.length < fuel := by simpa using hf
+        by_cases herr : pb.mult = 128 * 128 * 128 ∧ b ≥ 128
+        · simp [feedSpec, stepByte, hst, herr]
+        · simp only [herr, if_false]
+          by_cases hb : b < 128
+          · simp only [hb, if_true]
+            by_cases hz : pb.remaining + b % 128 * pb.mult = 0
+            · simp [feedSpec, stepByte, hst, herr, hb, hz]
+            · simp only [hz, if_false]
+              rw [ih _ rest (by intro _; simp; omega) hr]
+              have hz' : ¬ (pb.remaining = 0 ∧ b % 128 * pb.mult = 0) := by
+                intro c; exact hz (by omega)
+              simp [feedSpec, stepByte, hst, herr, hb, hz']
+          · simp only [hb, if_false]
+            rw [ih _ rest (by simp [hst]) hr]
+            simp [feedSpec, stepByte, hst, herr, hb]
+    | payload =>
+      simp only
+      have hpos := hinv hst
+      by_cases hn0 : min pb.remaining inp.length = 0
+      · have : inp = [] := by
+          cases inp with
+          | nil => rfl
+          | cons _ _ => simp at hn0; omega
+        subst this
+        simp [feedSpec]
+      · simp only [hn0, if_false]
+        by_cases hle : pb.remaining ≤ inp.length
+        · have hmin : min pb.remaining inp.length = pb.remaining := by omega
+          simp only [hmin, Nat.sub_self, if_true]
+          rw [feedSpec_payload_complete pb inp hst hpos hle]
+        · have hmin : min pb.remaining inp.length = inp.length := by omega
+          have hne : pb.remaining - inp.length ≠ 0 := by omega
+          simp only [hmin, hne, if_false]
+          rw [feedSpec_payload_partial inp.length pb inp hst (Nat.le_refl _) (by omega)]
+          simp [feedSpec, hst]
+
+/-- C09 core: the Rust-shaped `feed` is the byte-at-a-time specification. -/
+theorem feed_eq_spec (pb : PB) (inp : List Nat) (hinv : pb.st = .payload → 0 < pb.remaining) :
+    feed pb inp = feedSpec pb inp := by
+  unfold feed
+  split
+  · rename_i h; subst h; simp [feedSpec]
+  · exact feedLoop_eq_spec _ pb inp hinv (by omega)
+
+#print axioms feed_eq_spec
 end Framing
